@@ -30,7 +30,7 @@ def main():
             "guard": "NIFLY_VERIF_HOOKS",
             "enable": "tools/vlib.py compiles /repo/src/*.cpp with -DNIFLY_VERIF_HOOKS into /verif/_work (content-keyed object cache) and links harness/*.cpp against it",
             "baseline_off_cmd": "python3 tools/baseline_off.py",
-            "source_commits": [],
+            "source_commits": ["9e0b390c76887d652febaaa8b281a4c8c75765b6", "d6a27be54835aa08dc5f5405ebc5b65b0910e555"],
             "add_only": True,
         },
         "engines": [
